@@ -361,7 +361,7 @@ def run_check(mod, tier, seed, only=None):
         return 2
     cfg = mod.TIERS[tier]
     n_scn = cfg['scenarios']
-    wall_cap = cfg.get('wall_cap', 3600)
+    wall_cap = int(os.environ.get('VERIF_WALL_CAP') or cfg.get('wall_cap', 3600))    # (seconds of exploration; the env knob only shortens scheduled runs)
     total = WorkResult()
     idxs = list(range(n_scn)) if only is None else list(only)
     nproc = min(common.NCPU, max(1, len(idxs)))
